@@ -149,7 +149,7 @@ class InjectedError(RuntimeError):
 
 class RecCorr(nn.Module):
     def __init__(self, inner, tag, log, box=None):
-        super().__init__()
+        nn.Module.__init__(self)        # (not super(): the recorder may be mixed into a shipped class, see user_subclass)
         self.inner, self.tag, self.log = inner, tag, log
         self.box = box if box is not None else {}
 
@@ -164,9 +164,21 @@ class RecCorr(nn.Module):
         return Rc, Jc
 
 
+def user_subclass(rec_cls, inner):
+    """(21) a recorder that DERIVES from the shipped class of the object it wraps (a user's `class MySolver(PINV)` with its own
+    `forward`): code that dispatches on isinstance / class identity instead of calling the object's own method shows there"""
+    base = type(inner)
+    if base.__module__.startswith("harness") or not isinstance(base, type):
+        return rec_cls
+    try:
+        return type("User" + base.__name__, (rec_cls, base), {})
+    except TypeError:
+        return rec_cls
+
+
 class RecSolver(nn.Module):
     def __init__(self, inner, log):
-        super().__init__()
+        nn.Module.__init__(self)
         self.inner, self.log = inner, log
         self.opt = None
         self.bad = []          # factors for the first calls of the current step
@@ -223,6 +235,12 @@ def build_kernel(spec):
         return None
     if spec["name"] == "UserQuad":
         return UserQuad(*spec.get("args", []))
+    if spec["name"].startswith("SubQuad:"):     # (21) derives from a shipped kernel, computes its own function
+        import pypose.optim.kernel as K
+        base = getattr(K, spec["name"].split(":")[1])
+        c_ = spec.get("args", [0.3])[0]
+        cls = type("User" + base.__name__, (base,), {"forward": lambda self, x, c_=c_: x + 0.5 * c_ * x * x})
+        return cls()
     import pypose.optim.kernel as K
     return getattr(K, spec["name"])(*spec.get("args", []))
 
@@ -395,33 +413,45 @@ def build_env(case):
     env.wctor, env.wctor_info = weight_tensors(case["weight_ctor"], D, with_info=True)
     wct = pass_weight(env.wctor, case.get("wstyle", "list"))
     pos = case.get("ctor_style") == "pos"       # (10) positional vs keyword passing
+    sub = bool(case.get("subclass"))
+    env.upd_calls = []
+    GNc, LMc = P.optim.GN, P.optim.LM
+    if sub:     # (21) the user's own optimizer classes, overriding update_parameter (and delegating to the library's)
+        def _upd(self, params, step, _log=env.upd_calls, **kw):
+            _log.append(int(step.numel()))
+            return super(type(self), self).update_parameter(params=params, step=step)
+        GNc = type("UserGN", (P.optim.GN,), {"update_parameter": _upd})
+        LMc = type("UserLM", (P.optim.LM,), {"update_parameter": _upd})
     if case["opt"] == "GN":
         if pos:
-            opt = P.optim.GN(env.model, inner, env.kernels, corr, wct, case["vectorize"])
+            opt = GNc(env.model, inner, env.kernels, corr, wct, case["vectorize"])
         else:
-            opt = P.optim.GN(env.model, solver=inner, kernel=env.kernels, corrector=corr, weight=wct, vectorize=case["vectorize"])
+            opt = GNc(env.model, solver=inner, kernel=env.kernels, corrector=corr, weight=wct, vectorize=case["vectorize"])
     else:
-        strat = RecStrategy(build_strategy(case["strategy"]), env.str_log) if case["strategy"] is not None else None
+        strat = None
+        if case["strategy"] is not None:
+            si_ = build_strategy(case["strategy"])
+            strat = (user_subclass(RecStrategy, si_) if sub else RecStrategy)(si_, env.str_log)
         opts = {}
         for k_ in ("reject", "min", "max"):         # None = the argument is not passed (library default)
             if case.get(k_) is not None:
                 opts[k_] = case[k_]
         if pos and len(opts) == 3 and case.get("strategy") is not None:
-            opt = P.optim.LM(env.model, inner, strat, env.kernels, corr, wct, case["reject"], case["min"], case["max"], case["vectorize"])
+            opt = LMc(env.model, inner, strat, env.kernels, corr, wct, case["reject"], case["min"], case["max"], case["vectorize"])
         else:
-            opt = P.optim.LM(env.model, solver=inner, strategy=strat, kernel=env.kernels, corrector=corr, weight=wct,
+            opt = LMc(env.model, solver=inner, strategy=strat, kernel=env.kernels, corrector=corr, weight=wct,
                              vectorize=case["vectorize"], **opts)
         if strat is None:   # default strategy: wrap what the optimizer created
-            opt.strategy = RecStrategy(opt.strategy, env.str_log)
+            opt.strategy = (user_subclass(RecStrategy, opt.strategy) if sub else RecStrategy)(opt.strategy, env.str_log)
     env.user_corr = corr
     env.default_solver = type(opt.solver).__name__
-    env.solver = RecSolver(opt.solver, env.sol_log)
+    env.solver = (user_subclass(RecSolver, opt.solver) if sub else RecSolver)(opt.solver, env.sol_log)
     env.solver.opt = opt
     opt.solver = env.solver
     env.n_corr = len(opt.corrector)
     env.corr_inner = list(opt.corrector)
     env.box = {}
-    opt.corrector = [RecCorr(c, j, env.corr_log, env.box) for j, c in enumerate(opt.corrector)]
+    opt.corrector = [(user_subclass(RecCorr, c) if sub else RecCorr)(c, j, env.corr_log, env.box) for j, c in enumerate(opt.corrector)]
     env.opt = opt
     env.names = [n for n, _ in env.model.named_parameters()]
     env.params = [getattr(env.model, n) for n in env.names]
@@ -705,6 +735,54 @@ def run_interleaved(ctx: Ctx, cases, pending):
     return res
 
 
+@contextlib.contextmanager
+def default_dtype(name):
+    """(25) a process-wide default dtype different from the operands' dtype around construction and calls"""
+    if not name:
+        yield
+        return
+    old = torch.get_default_dtype()
+    torch.set_default_dtype(getattr(torch, name))
+    try:
+        yield
+    finally:
+        torch.set_default_dtype(old)
+
+
+def arg_tokens(spec):
+    """wire encoding of a kernel= / corrector= argument: -1 None | 0 one module | L flag_1 … flag_L"""
+    if spec is None:
+        return "-1"
+    if isinstance(spec, list):
+        return f"{len(spec)} " + " ".join("0" if e_ is None else "1" for e_ in spec)
+    return "0"
+
+
+def corrector_codes(env):
+    """what optimizer.corrector holds, in the model's vocabulary: T | AN | A<kernel index> | U<corrector index>"""
+    uc = env.user_corr
+    ucl = [] if uc is None else (list(uc) if isinstance(uc, (list, tuple)) else [uc])
+    ks = env.kernels
+    kl = [] if ks is None else (list(ks) if isinstance(ks, (list, tuple)) else [ks])
+    codes = []
+    for c_ in env.corr_inner:
+        hit = [j_ for j_, u_ in enumerate(ucl) if u_ is c_]
+        if hit:
+            codes.append(f"U{hit[0]}")
+        elif type(c_).__name__ == "Trivial":
+            codes.append("T")
+        elif type(c_).__name__ == "FastTriggs":
+            try:
+                kern = c_.func.__closure__[0].cell_contents
+            except Exception:
+                kern = None
+            kh = [j_ for j_, k_ in enumerate(kl) if k_ is kern]
+            codes.append(f"A{kh[0]}" if kh else ("AN" if type(kern).__name__ == "Trivial" else "A?"))
+        else:
+            codes.append("?" + type(c_).__name__)
+    return codes
+
+
 def make_twin(env, case):
     """(14) an independent optimizer in the same state: fresh model + optimizer, model.load_state_dict and
     optimizer.load_state_dict of the original (deepcopy / pickle of the optimizer itself drop every attribute through
@@ -744,11 +822,14 @@ def _check_case_gen(ctx: Ctx, case, pending):
     f32 = case["dtype"] == "float32"
     cd = cdesc(case)
     try:
-        env = build_env(case)
+        with default_dtype(case.get("default_dtype")):
+            env = build_env(case)
     except Exception as e:
         ctx.fail(cd, f"construct: optimizer construction raises {type(e).__name__}: {str(e)[:160]}")
         return False
     opt = env.opt
+    if case.get("default_dtype"):
+        ctx.count(f"defaultdtype.{case['default_dtype']}.operands-{case['dtype']}")
     # (10) what was passed to the constructor — positionally or by keyword — is what the optimizer uses
     pg_ = opt.param_groups[0]
     want_args = {}
@@ -776,6 +857,35 @@ def _check_case_gen(ctx: Ctx, case, pending):
                          f"(configured {[type(u_).__name__ for u_ in ucl]}, in use {[type(g_).__name__ for g_ in got_]}; kernel "
                          f"{'given' if case['kernel'] is not None else 'not given'})")
             return False
+    # glue in the model: constructor plumbing of kernels / correctors, LM's defaults
+    codes = corrector_codes(env)
+
+    def cb_config(rep, codes=codes, cd=cd):
+        st_, toks = common.parse_reply(rep)
+        if st_ != "ok" or toks != codes:
+            ctx.disagree("config", cd, f"optimizer.corrector holds {codes}, model configCorrectors gives {toks if st_ == 'ok' else 'raise'} "
+                                       f"(kernel arg {arg_tokens(case['kernel'])!r}, corrector arg {arg_tokens(case['corrector'])!r})")
+    pending.append((f"c07.config {arg_tokens(case['kernel'])} {arg_tokens(case['corrector'])}", cb_config))
+    if case["opt"] == "LM":
+        fl_ = [0 if case.get(k_) is None else 1 for k_ in ("min", "max", "reject")]
+        line = "c07.lmcfg " + " ".join(map(str, fl_))
+        if fl_[0]:
+            line += " " + common.to_wire(float(case["min"]))
+        if fl_[1]:
+            line += " " + common.to_wire(float(case["max"]))
+        if fl_[2]:
+            line += f" {int(case['reject'])}"
+        got_cfg = (float(pg_["min"]), float(pg_["max"]), int(opt.reject))
+
+        def cb_cfg(rep, got_cfg=got_cfg, cd=cd):
+            st_, toks = common.parse_reply(rep)
+            ok_ = st_ == "ok" and len(toks) == 3
+            if ok_:
+                lo_, hi_, rj_ = fw(toks[0]), fw(toks[1]), int(toks[2])
+                ok_ = (abs(lo_ - got_cfg[0]) <= 2e-16 * abs(lo_) and abs(hi_ - got_cfg[1]) <= 2e-16 * abs(hi_) and rj_ == got_cfg[2])
+            if not ok_:
+                ctx.disagree("lmcfg", cd, f"LM holds (min, max, reject) = {got_cfg}, model lmConfig gives {toks}")
+        pending.append((line, cb_cfg))
     n_frozen = sum(1 for lf in case["leaves"] if lf["role"] == "param" and not lf["rg"] and (lf.get("zerodim") or math.prod(lf["lshape"]) > 0))
     cd["n_frozen"] = n_frozen
     numels = [int(raw(p).numel()) for p in env.params]
@@ -811,9 +921,12 @@ def _check_case_gen(ctx: Ctx, case, pending):
             ctx.count("degenerate.nonfinite-forward")     # earlier (deliberately bad) steps drove the model out of its domain
             return "stop"
         # raw Jacobian blocks, as the optimizer obtains them
+        big = bool(case.get("large"))        # (19) 10^4..10^5 residual rows: oracles only, the 192-bit model on a sample
         try:
-            with contextlib.redirect_stdout(io.StringIO()):
-                Jraw = P.optim.functional.modjac(opt.model, input=(env.input, env.target), flatten=False, vectorize=case["vectorize"])
+            Jraw = None
+            if not big:
+                with contextlib.redirect_stdout(io.StringIO()):
+                    Jraw = P.optim.functional.modjac(opt.model, input=(env.input, env.target), flatten=False, vectorize=case["vectorize"])
         except Exception as e:
             ctx.fail(cd, f"modjac: raises {type(e).__name__}: {str(e)[:200]}")
             st["ok"] = False
@@ -828,6 +941,8 @@ def _check_case_gen(ctx: Ctx, case, pending):
                 + [("step weight", t_) for t_ in (env.wstep or [])] + [("constructor weight", t_) for t_ in (env.wctor or [])])
         snaps = [t_.clone() for _, t_ in held]
         pub0 = public_state(opt)
+        meta0 = [(type(p_).__name__, raw(p_).dtype, tuple(raw(p_).shape), type(getattr(p_, "ltype", None)).__name__, bool(p_.requires_grad),
+                  raw(p_).device) for p_ in env.params]
         pg0 = {k_: v_ for k_, v_ in opt.param_groups[0].items() if k_ != "params"}
         prev_loss = float(opt.loss) if hasattr(opt, "loss") else None
         # (11) a user callback that fails / a documented argument check that fires
@@ -872,6 +987,28 @@ def _check_case_gen(ctx: Ctx, case, pending):
             ctx.count("gradmode.inference-unsupported")      # scope rule: code that needs autograd under inference_mode
             return "stop"
         after = [raw(p).clone() for p in env.params]
+        # (25) metadata: the step keeps class / dtype / shape / ltype / requires_grad of every parameter, and everything it
+        # hands to the corrector, the solver and the strategy has the parameters' dtype — whatever the process default is
+        meta1 = [(type(p_).__name__, raw(p_).dtype, tuple(raw(p_).shape), type(getattr(p_, "ltype", None)).__name__, bool(p_.requires_grad),
+                  raw(p_).device) for p_ in env.params]
+        if meta1 != meta0:
+            bad_ = [i_ for i_, (a_, b_) in enumerate(zip(meta0, meta1)) if a_ != b_]
+            ctx.fail(cd, f"metadata: step() changed class / dtype / shape / ltype / requires_grad of parameter(s) {bad_}: "
+                         f"{[meta0[i_] for i_ in bad_]} -> {[meta1[i_] for i_ in bad_]} (default dtype {torch.get_default_dtype()}) ({tag})")
+            st["ok"] = False
+        seen_ = ([("corrector R", c_["R"]) for c_ in env.corr_log] + [("corrector J", c_["J"]) for c_ in env.corr_log]
+                 + [("solver A", s_["A"]) for s_ in env.sol_log] + [("solver b", s_["b"]) for s_ in env.sol_log]
+                 + [("solver D", s_["D_true"]) for s_ in env.sol_log if "D_true" in s_]
+                 + [("strategy J", s_["J"]) for s_ in env.str_log] + [("strategy R", s_["R"]) for s_ in env.str_log])
+        wrong_ = sorted({f"{nm_}:{t_.dtype}" for nm_, t_ in seen_ if t_.dtype != env.D})
+        if wrong_:
+            ctx.fail(cd, f"metadata: tensors of dtype other than the parameters' {env.D} were handed to user objects: {wrong_} "
+                         f"(default dtype {torch.get_default_dtype()}) ({tag})")
+            st["ok"] = False
+        for s_ in env.sol_log:
+            if s_["b"].dim() != 2 or s_["b"].shape[1] != 1 or s_["A"].dim() != 2 or s_["A"].shape[0] != s_["b"].shape[0]:
+                ctx.fail(cd, f"metadata: the solver was handed A {list(s_['A'].shape)}, b {list(s_['b'].shape)} (documented: A m x n, b m x 1) ({tag})")
+                st["ok"] = False
         # purity of everything the caller passed, guard regions of the buffers behind views, public attributes
         for (nm, t_), s0 in zip(held, snaps):
             if not torch.equal(torch.nan_to_num(t_, nan=12345.0), torch.nan_to_num(s0, nan=12345.0)):
@@ -936,6 +1073,14 @@ def _check_case_gen(ctx: Ctx, case, pending):
             return "stop"
         if n_frozen:
             ctx.count("frozen.steps")
+        if case.get("subclass"):
+            n_sol = sum(1 for s_ in env.sol_log if "D" in s_)
+            if n_sol and len(env.upd_calls) < n_sol:
+                ctx.fail(cd, f"subclass: the user's optimizer subclass overrides update_parameter, but step() applied {n_sol} solver "
+                             f"result(s) with only {len(env.upd_calls)} call(s) of it ({tag})")
+                st["ok"] = False
+            env.upd_calls.clear()
+            ctx.count("subclass.calls")
         if inj.get("where") == "solver" and case["opt"] == "LM" and env.sol_log and "raised" in env.sol_log[0] and inj.get("at") == 0:
             pg1 = {k_: v_ for k_, v_ in opt.param_groups[0].items() if k_ != "params"}
             if not all(torch.equal(a_, b_) for a_, b_ in zip(after, before)) or pg1 != pg0:
@@ -969,6 +1114,47 @@ def _check_case_gen(ctx: Ctx, case, pending):
                 ctx.disagree("pick", cd, f"{tag}: corrector objects used {tags}, model {want} (ncorr={ncorr})")
                 ctx.fail(cd, f"corrector: residual i must be served by corrector[0] if one is configured else corrector[i]: used {tags} ({tag})")
         pending.append((f"c07.pick {env.n_corr} {nres}", cb_pick))
+        # the same through the constructor arguments (`servedBy` = pickCorrector ∘ configCorrectors)
+        ccodes = corrector_codes(env)
+        served = [ccodes[t_] if t_ < len(ccodes) else "?" for t_ in tags]
+
+        def cb_served(rep, served=served, cd=cd, tag=tag):
+            st_, toks = common.parse_reply(rep)
+            if st_ != "ok" or toks != served:
+                ctx.disagree("served", cd, f"{tag}: residuals were corrected by {served}, model servedBy gives {toks if st_ == 'ok' else 'raise'}")
+        pending.append((f"c07.served {nres} {arg_tokens(case['kernel'])} {arg_tokens(case['corrector'])}", cb_served))
+        wlabel = call.get("weight", "none") if weff_t is not None else "none"
+
+        def cb_wsel(rep, wlabel=wlabel, cd=cd, tag=tag):
+            st_, toks = common.parse_reply(rep)
+            if st_ != "ok" or toks != [wlabel]:
+                ctx.disagree("wsel", cd, f"{tag}: the harness passed weights so that '{wlabel}' applies, model selectWeight says {toks}")
+        pending.append((f"c07.wsel {0 if env.wctor is None else 1} {0 if wstep is None else 1}", cb_wsel))
+        # residuals through the model: residualsOf(outputs, targets)
+        if all(list(c_["R"].shape) == list(o_.shape) for c_, o_ in zip(env.corr_log, outs0)):
+            tl_ = env.target_list
+            line = f"c07.resid {nres} " + " ".join(str(int(o_.numel())) for o_ in outs0)
+            if tl_ is None:
+                line += " 0"
+            else:
+                line += f" 1 {len(tl_)} " + " ".join("0" if t_ is None else "1" for t_ in tl_)
+            data = [wl(o_) for o_ in outs0] + ([] if tl_ is None else [wl(raw(t_)) for t_ in tl_ if t_ is not None])
+            line += " " + " ".join(x_ for x_ in data if x_)
+            gotR = torch.cat([c_["R"].double().reshape(-1) for c_ in env.corr_log])
+            scR = torch.cat([(o_.double().abs() + (0 if (tl_ is None or tl_[i_] is None) else raw(tl_[i_]).double().abs())).reshape(-1)
+                             for i_, o_ in enumerate(outs0)])
+
+            def cb_resid(rep, gotR=gotR, scR=scR, cd=cd, tag=tag, eps=eps, fl=fl):
+                st_, toks = common.parse_reply(rep)
+                if st_ != "ok" or len(toks) != gotR.numel():
+                    ctx.disagree("resid", cd, f"{tag}: model residualsOf {'raises' if st_ != 'ok' else 'has another length'}, the implementation computed residuals")
+                    return
+                want = torch.tensor([fw(t_) for t_ in toks], dtype=torch.float64)
+                r_, i_ = worst(gotR, want, scR, 4 * eps, fl)
+                if r_ > 1:
+                    ctx.disagree("resid", cd, f"{tag}: residual differs from the model's output - target (ratio {r_:.2e} at {i_})")
+            if not big:
+                pending.append((line, cb_resid))
         ctx.count(f"corr.n{env.n_corr}.res{nres}")
 
         # the configured corrector: with corrector=None the optimizer builds FastTriggs(kernel_i) (or the identity when
@@ -1029,7 +1215,7 @@ def _check_case_gen(ctx: Ctx, case, pending):
                     ctx.fail(cd, f"residual: residual {i} is not output_i - target_i (ratio {r:.2e}) ({tag})")
                     st["ok"] = False
         # hcat correspondence: raw blocks -> J_i
-        for i in range(nres):
+        for i in range(0 if big else nres):
             Ji = env.corr_log[i]["J"]
             rows = int(Ji.shape[0])
             blocks = Jraw[i] if isinstance(Jraw[i], (tuple, list)) else (Jraw[i],)
@@ -1132,7 +1318,9 @@ def _check_case_gen(ctx: Ctx, case, pending):
             for sh, w in zip(shapes, weff):
                 hdr += f" {len(sh)} " + " ".join(map(str, sh)) + f" {w.dim()} " + " ".join(map(str, w.shape))
             wdata = " ".join(wl(w) for w in weff)
-        rdata = " ".join(x for x in (s for r_, j_ in zip(Rc, Jc) for s in (wl(r_), wl(j_))) if x)
+        rdata = "" if big else " ".join(x for x in (s for r_, j_ in zip(Rc, Jc) for s in (wl(r_), wl(j_))) if x)
+        if big:
+            wdata = ""
         wtag = "none" if weff is None else "/".join("x".join(map(str, w.shape)) for w in weff)
         ctx.count(f"weight.{call.get('weight', 'none')}")
 
@@ -1165,7 +1353,8 @@ def _check_case_gen(ctx: Ctx, case, pending):
                 r2, i2 = worst(b, bm, ind["aWR"], 64 * eps, fl)
                 if r1 > 1 or r2 > 1:
                     ctx.disagree("gn", cd, f"{tag}: (A, b) differ from the model: A ratio {r1:.2e} at {i1}, b ratio {r2:.2e} at {i2} (weights {wtag})")
-            pending.append((line, cb_gn))
+            if not big:
+                pending.append((line, cb_gn))
             ctx.count("sys.gn")
         else:
             K = len(env.sol_log)
@@ -1227,7 +1416,8 @@ def _check_case_gen(ctx: Ctx, case, pending):
                         ctx.disagree("lm", cd, f"{tag}: trial {k_ + 1}/{K}: (A_k, b) differ from the model: A ratio {r1:.2e} at {i1}, "
                                                f"b ratio {r2:.2e} at {i2} (lambdas {lams[:k_ + 1]}, weights {wtag})")
                         return
-            pending.append((line, cb_lm))
+            if not big:
+                pending.append((line, cb_lm))
             ctx.count(f"sys.lm.trials{min(K, 4)}")
             # clamp regime statistics
             raw_d = ind["H"].diagonal()
@@ -1366,6 +1556,23 @@ def _check_case_gen(ctx: Ctx, case, pending):
                 st["ok"] = False
         return "go"
 
+    if case.get("poison"):
+        # (23) a throw-away optimizer of the same model / shapes / dtypes takes one step under inference_mode / no_grad first
+        # (not judged: modjac has no autograd there); whatever it left in module-level caches must not reach the judged calls
+        try:
+            with default_dtype(case.get("default_dtype")):
+                pz = build_env(case)
+                setup_call(pz, 0)
+                gm_ = torch.inference_mode if case["poison"] == "inference" else torch.no_grad
+                with contextlib.redirect_stdout(io.StringIO()), warnings.catch_warnings(), gm_():
+                    warnings.simplefilter("ignore")
+                    pz.opt.step(pz.input, target=pz.target, weight=pass_weight(pz.wstep, case.get("wstyle", "list")))
+        except Exception:
+            pass
+        ctx.count(f"gradorder.{case['poison']}-first")
+    for k_ in ("tie_clamp", "dup", "near_clamp"):
+        if case.get(k_):
+            ctx.count(f"ties.{k_}" if k_ != "near_clamp" else "lm.clamp.near-threshold-case")
     twin = None
     for ci, call in enumerate(case["calls"]):
         if case.get("fork") == ci and twin is None:
@@ -1376,7 +1583,9 @@ def _check_case_gen(ctx: Ctx, case, pending):
                 ctx.count("copies.state_dict-twin")
         for who, e_, other in ((("", env, twin),) + ((("[twin]", twin, env),) if twin is not None else ())):
             snap = None if other is None else twin_snapshot(other)
-            if do_call(e_, ci, who) == "stop":
+            with default_dtype(case.get("default_dtype")):
+                res_ = do_call(e_, ci, who)
+            if res_ == "stop":
                 return st["ok"]
             if other is not None and twin_snapshot(other, snap) is False:
                 ctx.fail(cd, f"copies: stepping one optimizer changed the parameters / param_groups of the other one "
@@ -1490,7 +1699,8 @@ def wdiag_configs(rng, quick):
 # ----------------------------------------------------------------------------- case generation
 
 KERNELS = [("Huber", [1.0]), ("Huber", [0.3]), ("PseudoHuber", [1.0]), ("Cauchy", [1.0]), ("Cauchy", [0.5]), ("SoftLOne", [1.0]),
-           ("Arctan", [1.0]), ("Tolerant", [1.0, -1.0]), ("Scale", [0.5]), ("UserQuad", [0.3])]
+           ("Arctan", [1.0]), ("Tolerant", [1.0, -1.0]), ("Scale", [0.5]), ("UserQuad", [0.3]), ("SubQuad:Huber", [0.3]),
+           ("SubQuad:Cauchy", [0.2])]
 DAMPINGS = [1e-9, 1e-7, 1e-6, 1e-4, 1e-2, 0.1, 1.0, 10.0, 1e3]
 MINS = [1e-9, 1e-6, 1e-6, 1e-6, 1e-3, 0.1, 1.0, 50.0]
 MAXS = [1e32, 1e32, 1e32, 1e3, 10.0, 1.0, 0.5, 1e-3]
@@ -1511,7 +1721,7 @@ def gen_spd(rng, d, mag=None):
     return [[mag * M[i][j] for j in range(d)] for i in range(d)]
 
 
-def gen_weight(rng, shapes, dtype, force_suffix=None, layouts=0.0, wide=False, layout=None, alias=0.0):
+def gen_weight(rng, shapes, dtype, force_suffix=None, layouts=0.0, wide=False, layout=None, alias=0.0, zero_block=0.0):
     """SPD weights, one per residual, in a documented shape (suffix of the batch shape + (d, d)).  `layouts` = probability
     of a non-contiguous memory layout, `layout` forces one, `alias` = probability that two residuals share one tensor"""
     ws = []
@@ -1530,6 +1740,8 @@ def gen_weight(rng, shapes, dtype, force_suffix=None, layouts=0.0, wide=False, l
             mag = rng.choice([1e-8, 1e8, 1e-5, 1e5]) if (wide and rng.random() < 0.5) else None
             vals += [x for row in gen_spd(rng, d, mag) for x in row]
         t = torch.tensor(vals, dtype=torch.float64).to(U.dt(dtype)).to(torch.float64)
+        if rng.random() < zero_block:            # (20) a weight that is exactly zero for one block (boundary of the SPD cone)
+            t.reshape(nb, d * d)[rng.randrange(nb)] = 0.0
         spec = {"shape": wb + [d, d], "values": t.tolist()}
         lay = layout if layout is not None else (rng.choice(["mT", "slice", "tbatch", "bslice", "expand"]) if rng.random() < layouts else "contig")
         if lay == "expand":
@@ -1566,6 +1778,8 @@ def gen_targets(rng, outs, dtype, tmode, tscale=None, layouts=0.0, alias=0.0, fi
             tg.append({"shape": list(o.shape), "values": tg[0]["values"], "alias_of": 0})
             continue
         noise = torch.tensor([rng.gauss(0, 1) for _ in range(o.numel())], dtype=torch.float64).reshape(o.shape)
+        if tmode in ("above", "below"):          # (26) residuals of one sign only (all negative / all positive)
+            noise = noise.abs() * (1.0 if tmode == "above" else -1.0)
         if tmode == "peritem" and o.dim() >= 2:
             nit = int(math.prod(o.shape[:-1]))
             scv = torch.tensor([rng.choice([0.0, 0.0, 1e-15, 1e-9, 1e-3, 0.3, 3.0, 30.0]) for _ in range(nit)], dtype=torch.float64)
@@ -1645,6 +1859,12 @@ def make_case(rng, **force):
     else:
         raise common.InfraError("could not generate a residual model within the size limits")
     case["shapes"] = shapes
+    if rng.random() < force.get("dup", 0.1):      # (20) two identical items in every batched leaf: equal residuals / diagonal entries
+        for lf in case["leaves"]:
+            if not lf.get("zerodim") and len(lf["values"]) >= 2:
+                lf["values"][1] = list(lf["values"][0])
+        case["dup"] = True
+        outs = G.out_batch_dims(case)
     # memory layouts: parameters that are views into a larger buffer of the caller, non-contiguous inputs
     vprob, lprob = force.get("views", 0.12), force.get("layouts", 0.15)
     for lf in case["leaves"]:
@@ -1653,7 +1873,7 @@ def make_case(rng, **force):
         if lf["role"] == "input" and rng.random() < lprob:
             lf["layout"] = rng.choice(["slice", "step", "perm", "bslice"])
     # targets
-    tmode = force.get("target", rng.choice(["near", "near", "near", "none", "mixed", "peritem", "peritem"]))
+    tmode = force.get("target", rng.choice(["near", "near", "near", "none", "mixed", "peritem", "peritem", "above", "below"]))
     case["targets"] = gen_targets(rng, outs, dtype, tmode, force.get("tscale"), lprob, force.get("alias", 0.3), force.get("first_scales"))
     if case["targets"] is not None:
         if not any(t is not None for t in case["targets"]) and rng.random() < 0.5:
@@ -1721,6 +1941,9 @@ def make_case(rng, **force):
                 if sp_ is not None and not ast_ and ty_[0] == "A" and "alias_of" not in sp_ and rng.random() < 0.5:
                     sp_["as_lie"] = ty_[1]
     case["ktuple"] = rng.random() < 0.3
+    case["subclass"] = rng.random() < force.get("subclass", 0.3)          # (21) user subclasses of every shipped class involved
+    if dtype == "float32" and rng.random() < force.get("defdtype", 0.4):
+        case["default_dtype"] = "float64"                                  # (25) process default differs from the operands' dtype
     case["ctor_style"] = rng.choice(["kw", "kw", "pos"])
     for lf in case["leaves"]:
         if lf["role"] == "param" and lf["ty"][0] == "E" and rng.random() < force.get("pp_param", 0.2):
@@ -1728,7 +1951,7 @@ def make_case(rng, **force):
     # weights
     wmode = force.get("wmode", rng.choice(["none", "none", "ctor", "ctor", "step", "both"]))
     wkw = dict(layouts=force.get("wlayouts", 0.2), wide=rng.random() < force.get("wide", 0.06) * 2, layout=force.get("wlayout"),
-               alias=force.get("alias", 0.3))
+               alias=force.get("alias", 0.3), zero_block=force.get("zero_block", 0.04))
     case["weight_ctor"] = gen_weight(rng, shapes, dtype, force.get("wsuffix"), **wkw) if wmode in ("ctor", "both") else None
     case["weight_step"] = gen_weight(rng, shapes, dtype, force.get("wsuffix"), **wkw) if wmode in ("step", "both") else None
     case["wstyle"] = rng.choice(["list", "tuple", "tensor"])
@@ -1818,7 +2041,7 @@ def make_case(rng, **force):
                     for ov in newin.values():
                         ov.pop("layout", None)       # the overwritten tensor keeps its memory layout
                 if same_shapes and call["weight"] == "ctor" and case["weight_ctor"] is not None and rng.random() < 0.5:
-                    fresh = gen_weight(rng, shapes_c, dtype, None, layouts=0.0, wide=False, layout="contig", alias=0.0)
+                    fresh = gen_weight(rng, shapes_c, dtype, None, layouts=0.0, wide=False, layout="contig", alias=0.0, zero_block=0.0)
                     edits = []
                     for w0, w1 in zip(case["weight_ctor"], fresh):
                         edits.append(w1["values"] if (w0["shape"] == w1["shape"] and w0.get("layout", "contig") == "contig"
@@ -1836,7 +2059,49 @@ def make_case(rng, **force):
         case["fork"] = rng.randrange(1, len(case["calls"]))
     if case["opt"] == "LM" and rng.random() < force.get("near_clamp", 0.25):
         near_threshold_clamps(rng, case)
+    if case["opt"] == "LM" and rng.random() < force.get("tie_clamp", 0.15):
+        exact_tie_clamps(rng, case)
+    if rng.random() < force.get("poison", 0.12):
+        case["poison"] = rng.choice(["inference", "no_grad"])     # (23) an unjudged first step of a throw-away twin in that mode
     return case
+
+
+def exact_tie_clamps(rng, case):
+    """(20) clamp bounds EXACTLY equal to diagonal entries of JᵀWJ as the step itself computes them (a dry run of the same
+    first call with clamps far away and a damping that rounds away records them bit for bit): min == d_i, max == d_j, or
+    min == max == d_i"""
+    try:
+        c = json.loads(json.dumps(case))
+        c.update({"min": 1e-300 if case["dtype"] == "float64" else 1e-37, "max": 1e300 if case["dtype"] == "float64" else 1e37,
+                  "strategy": {"name": "Constant", "damping": 1e-300}, "solver": "PINV", "reject": 0, "subclass": False})
+        c["calls"] = [dict(c["calls"][0], bad=[], pg_edit=None)]
+        c["calls"][0].pop("raise", None); c["calls"][0].pop("bad_weight_count", None); c["calls"][0].pop("grad", None)
+        c.pop("fork", None); c.pop("poison", None); c.pop("default_dtype", None)
+        env = build_env(c)
+        setup_call(env, 0)
+        with contextlib.redirect_stdout(io.StringIO()), warnings.catch_warnings():
+            warnings.simplefilter("ignore")
+            env.opt.step(env.input, target=env.target, weight=pass_weight(env.wstep, c.get("wstyle", "list")))
+        d = env.sol_log[0]["A"].diagonal().double()
+        pos = sorted({float(x_) for x_ in d.tolist() if x_ > 1e-30 and math.isfinite(x_)})
+        if not pos:
+            return
+        mode = rng.choice(["min", "max", "both", "minmax"])
+        h1, h2 = pos[rng.randrange(len(pos))], pos[rng.randrange(len(pos))]
+        if mode == "min":
+            case["min"], case["max"] = h1, None
+        elif mode == "max":
+            case["max"], case["min"] = h1, min(1e-9, h1)
+        elif mode == "both":
+            case["min"], case["max"] = min(h1, h2), max(h1, h2)
+        else:
+            case["min"] = case["max"] = h1
+        for call in case["calls"]:
+            if call.get("pg_edit"):
+                call["pg_edit"].pop("min", None); call["pg_edit"].pop("max", None)
+        case["tie_clamp"] = mode
+    except Exception:
+        return
 
 
 def near_threshold_clamps(rng, case):
@@ -2025,6 +2290,262 @@ def itemwise_cases(rng, n, kernels=False):
     return out
 
 
+# ----------------------------------------------------------------------------- (19) large problems, (28) kernel switch-over sizes
+
+def large_case(rng, N, opt, dtype, weighted=False, shape=None):
+    """N residual items of dimension 1 that share a handful of parameters: sum_k s·(x_i + a)_k  (n = 4 columns, N rows —
+    the normal equations stay tiny while every per-row loop of the library runs N times)"""
+    shp = list(shape) if shape is not None else [N]
+    xs = [[rng.gauss(0, 1) for _ in range(3)] for _ in range(N)]
+    leaves = [{"role": "param", "ty": ["E", 3], "lshape": [], "values": [[rng.gauss(0, 1) for _ in range(3)]], "rg": True},
+              {"role": "param", "ty": ["S"], "lshape": [], "values": rng.choice([0.7, 1.3, -1.1]), "rg": True, "zerodim": True},
+              {"role": "input", "ty": ["E", 3], "lshape": shp, "values": xs, "rg": True}]
+    case = {"kind": "step", "large": True, "dtype": dtype, "leaves": leaves,
+            "roots": [["Sum1", ["ScaleE", ["AddE", ["L", 2], ["L", 0]], ["L", 1]]]], "out_as_tensor": [True], "tuple_out": False,
+            "input_mode": "single", "target_tuple": False, "opt": opt, "vectorize": False, "kernel": None, "corrector": None,
+            "weight_ctor": None, "weight_step": None, "wstyle": "list", "ktuple": False, "ctor_style": "kw", "subclass": False,
+            "solver": "PINV" if opt == "GN" else "Cholesky"}
+    outs = G.out_batch_dims(case)
+    case["shapes"] = [list(o.shape) for o in outs]
+    noise = torch.tensor([rng.gauss(0, 1) for _ in range(N)], dtype=torch.float64).reshape(outs[0].shape)
+    case["targets"] = [{"shape": list(outs[0].shape), "values": (outs[0].double() + 0.3 * noise).to(U.dt(dtype)).double().reshape(-1).tolist()}]
+    if opt == "LM":
+        case.update({"strategy": {"name": "Constant", "damping": 1e-4}, "min": 1e-6, "max": 1e32, "reject": 2})
+    call = {"weight": "none", "jac_check": True, "step_style": "kw"}
+    if weighted:        # only for moderate N: the library's block-diagonal weight is dense (N^2 entries)
+        case["weight_step"] = gen_weight(rng, case["shapes"], dtype, force_suffix=len(shp), layouts=0.0, alias=0.0, zero_block=0.0)
+        call["weight"] = "step"
+    if opt == "LM":
+        call["bad"] = []
+    case["calls"] = [call]
+    return case
+
+
+def slice_range(case, lo, hi):
+    """the same large problem restricted to the items lo..hi-1 (flat item order; the result has batch shape [hi-lo])"""
+    c = json.loads(json.dumps({k_: v_ for k_, v_ in case.items() if k_ != "leaves"}))
+    c["leaves"] = []
+    for lf in case["leaves"]:
+        l2 = dict(lf)
+        if lf["role"] == "input":
+            l2["lshape"] = [hi - lo]
+            l2["values"] = lf["values"][lo:hi]
+        c["leaves"].append(l2)
+    for key in ("targets",):
+        if case[key] is not None:
+            c[key] = [None if sp is None else {"shape": [hi - lo, 1], "values": sp["values"][lo:hi]} for sp in case[key]]
+    c["shapes"] = [[hi - lo, 1]]
+    c["weight_step"] = None
+    c["calls"] = [dict(case["calls"][0], weight="none")]
+    return c
+
+
+def system_of(case):
+    """(A, b) of the first solver call of the first step"""
+    env = build_env(case)
+    setup_call(env, 0)
+    with contextlib.redirect_stdout(io.StringIO()), warnings.catch_warnings():
+        warnings.simplefilter("ignore")
+        env.opt.step(env.input, target=env.target, weight=None)
+    return env.sol_log[0]["A"], env.sol_log[0]["b"].reshape(-1)
+
+
+def check_split(ctx: Ctx, case):
+    """(19) split consistency on the real code: the rows of the GN system of the whole batch are, bit for bit, the rows of the
+    systems of two pieces (and of single items: first, last, one in the middle); the LM normal matrix and right-hand side of
+    the whole batch are the sums over the pieces"""
+    cd = {k_: v_ for k_, v_ in case.items()}
+    N = len(case["leaves"][2]["values"])
+    eps = EPS[case["dtype"]]
+    try:
+        A, b = system_of(case)
+        # rows agree up to the rounding of the 3-term sums inside the model (torch's reduction order may depend on the batch
+        # size); anything a block / chunk boundary can do wrong is O(1)
+        xs = torch.tensor(case["leaves"][2]["values"], dtype=torch.float64)
+        a0 = torch.tensor(case["leaves"][0]["values"][0], dtype=torch.float64)
+        rsc = ((xs.abs() + a0.abs()).sum(1) * max(1.0, abs(case["leaves"][1]["values"])) + 1.0)
+        tg = torch.tensor(case["targets"][0]["values"], dtype=torch.float64).abs()
+
+        def rows_close(Aw, bw, Ap, bp, lo):
+            k_ = Ap.shape[0]
+            return (Aw.shape[1] == Ap.shape[1]
+                    and bool(((Aw[lo:lo + k_].double() - Ap.double()).abs() <= 16 * eps * rsc[lo:lo + k_, None]).all())
+                    and bool(((bw[lo:lo + k_].double() - bp.double()).abs() <= 16 * eps * (rsc[lo:lo + k_] + tg[lo:lo + k_])).all()))
+        cut = 1 << (N.bit_length() - 1) if N > 2 else 1          # the power of two just below N: a piece of 2^k and a short rest
+        cut = cut if cut < N else N // 2
+        A1, b1 = system_of(slice_range(case, 0, cut))
+        A2, b2 = system_of(slice_range(case, cut, N))
+        if case["opt"] == "GN":
+            if not (A.shape[0] == N and rows_close(A, b, A1, b1, 0) and rows_close(A, b, A2, b2, cut)):
+                ctx.fail(cd, f"split: the GN system of the whole batch (N={N}) is not the stack of the systems of items [0,{cut}) and [{cut},{N})")
+                return
+            for i_ in sorted({0, N - 1, N // 3}):
+                Ai, bi = system_of(slice_range(case, i_, i_ + 1))
+                if not rows_close(A, b, Ai, bi, i_):
+                    ctx.fail(cd, f"split: row {i_} of the GN system of the whole batch (N={N}) differs from the system of item {i_} alone "
+                                 f"({A[i_].tolist()} vs {Ai[0].tolist()})")
+                    return
+        else:
+            S_, sb = (A1.double() + A2.double()), (b1.double() + b2.double())
+            off = ~torch.eye(A.shape[0], dtype=torch.bool)
+            sc = A1.double().abs() + A2.double().abs()
+            if bool(((A.double() - S_).abs()[off] > 64 * eps * N ** 0.5 * sc[off] + 1e-300).any()) \
+                    or bool(((b.double() - sb).abs() > 64 * eps * N ** 0.5 * (b1.double().abs() + b2.double().abs()) + 64 * eps * float(sc.max())).any()):
+                ctx.fail(cd, f"split: LM's JᵀJ / JᵀR of the whole batch (N={N}) are not the sums over items [0,{cut}) and [{cut},{N})")
+                return
+        ctx.count(f"large.split.{case['opt']}.N{N}")
+    except Exception as e:
+        ctx.fail(cd, f"split: stepping a piece of the batch raises {type(e).__name__}: {str(e)[:160]}")
+
+
+def run_large(ctx: Ctx, pending):
+    rng = random.Random(7_0710 + ctx.seed)
+    big = [(2 ** 14 + 1, "GN", "float64"), (2 ** 14 + 1, "LM", "float32")] if ctx.quick else \
+          [(2 ** 14 + 1, "GN", "float64"), (2 ** 14 + 1, "LM", "float32"), (2 ** 16 + 1, "GN", "float32"), (2 ** 16 + 1, "LM", "float64"),
+           (2 ** 15, "GN", "float64"), (2 ** 14 - 1, "LM", "float64")]
+    cases = []
+    for N, opt, dt_ in big:
+        cases.append(large_case(rng, N, opt, dt_, shape=([N] if opt == "GN" else ([5, N // 5] if N % 5 == 0 else [1, N]))))
+    # (28) sizes on both sides of the switch-overs inside matmul / lstsq / pinv / cholesky kernels, with weights
+    sizes = [25, 26, 32, 33, 128, 129, 1024, 1025] if not ctx.quick else [rng.choice([25, 26]), rng.choice([32, 33]), rng.choice([128, 129]),
+                                                                          rng.choice([1024, 1025])]
+    for N in sizes:
+        cases.append(large_case(rng, N, rng.choice(["GN", "LM"]), rng.choice(["float32", "float64"]), weighted=N <= 1100))
+    for c in cases:
+        check_case(ctx, c, pending)
+        N = len(c["leaves"][2]["values"])
+        ctx.note_case(("large", c["opt"], N, c["dtype"]), True)
+        ctx.count(f"large.step.N{N if N > 2000 else 'small'}")
+        if N > 2000 or N in (33, 129):
+            check_split(ctx, c)
+    flush(ctx, pending)
+
+
+def run_large_update(ctx: Ctx, pending):
+    """(19)/(20)/(24) `update_parameter` on parameters of 2^14+1 / 2^16+1 items, every item in its own regime (step angle 0,
+    eps/2, EXACTLY eps, the next float above, 1e-9, 1e-3, 0.01 … 0.05, ordinary, large; log-scale 0, ±eps exactly, …): whole ==
+    stack of pieces bit for bit, first / last / middle item == the item alone, the 192-bit model on a sample incl. the last"""
+    P = pp()
+    rng = random.Random(7_0711)
+    plans = [("SO3", 2 ** 16 + 1, "float64"), ("SE3", 2 ** 14 + 1, "float32"), ("RxSO3", 2 ** 14 + 1, "float64"), ("Sim3", 2 ** 16 + 1, "float32")]
+    if not ctx.quick:
+        plans += [("SE3", 2 ** 16 + 1, "float64"), ("Sim3", 2 ** 14 + 1, "float64"), ("SO3", 2 ** 14, "float32"), ("RxSO3", 2 ** 16 - 1, "float32")]
+    for g, N, dt_ in plans:
+        D_ = U.dt(dt_)
+        eps = EPS[dt_]
+        gd, ad = U.GDIM[g], U.ADIM[g]
+        gen = torch.Generator().manual_seed(N + gd)
+        alg = torch.randn(N, ad, generator=gen, dtype=torch.float64) * 0.7
+        X = getattr(P, U.ALG[g])(alg).Exp().tensor().to(D_)
+        thetas = [0.0, eps / 2, eps, float(torch.nextafter(torch.tensor(eps, dtype=D_), torch.tensor(1.0, dtype=D_))), 1e-9, 1e-6, 1e-3, 0.01, 0.02,
+                  0.03, 0.05, 0.3, 2.0, math.pi]
+        sigmas = [0.0, eps, -eps, 1e-9, -0.5, 0.5, 2.0]
+        step = torch.zeros(N, gd, dtype=torch.float64)
+        dirs = torch.nn.functional.normalize(torch.randn(N, 3, generator=gen, dtype=torch.float64), dim=1)
+        dirs[::7] = torch.tensor([1.0, 0.0, 0.0], dtype=torch.float64)           # axis-aligned: |phi| is exactly the ladder value
+        th = torch.tensor([thetas[i_ % len(thetas)] for i_ in range(N)], dtype=torch.float64)
+        th[-1] = 0.3; th[0] = 0.03
+        psl = U.PHISL[g]
+        step[:, psl] = dirs * th.unsqueeze(1)
+        if U.TAUSL[g] is not None:
+            step[:, U.TAUSL[g]] = torch.randn(N, 3, generator=gen, dtype=torch.float64)
+        if U.SIGIDX[g] is not None:
+            step[:, U.SIGIDX[g]] = torch.tensor([sigmas[(i_ // 3) % len(sigmas)] for i_ in range(N)], dtype=torch.float64)
+        step[:, ad:] = 7.0          # the unused storage slot of the step carries garbage
+        step = step.to(D_)
+        case = {"kind": "large-update", "group": g, "N": N, "dtype": dt_}
+
+        def upd(Xs, ds):
+            prm = P.Parameter(P.LieTensor(Xs.clone(), ltype=U.ltype(g)))
+            mdl = nn.Module(); mdl.p = prm
+            opt = P.optim.GN(mdl)
+            with torch.no_grad():
+                opt.update_parameter(params=[prm], step=ds.reshape(-1, 1))
+            return raw(prm).clone()
+        try:
+            whole = upd(X, step)
+            ok_ = True
+            for a_ in sorted({1, N // 2, N - 1, 1 << (N.bit_length() - 1)}):
+                if 0 < a_ < N and not torch.equal(whole, torch.cat([upd(X[:a_], step[:a_]), upd(X[a_:], step[a_:])])):
+                    ctx.fail(case, f"split: update_parameter on {N} {g} items is not the stack of the updates of items [0,{a_}) and [{a_},{N})")
+                    ok_ = False
+                    break
+            sample = sorted({0, 1, 2, 6, 7, 13, N // 2, N - 2, N - 1} | {i_ for i_ in range(len(thetas) + 2)})
+            for i_ in (sample if ok_ else []):
+                if not torch.equal(whole[i_:i_ + 1], upd(X[i_:i_ + 1], step[i_:i_ + 1])):
+                    ctx.fail(case, f"split: item {i_} of update_parameter on {N} {g} items differs from the update of that item alone "
+                                   f"(|phi| = {float(th[i_]):.3e})")
+                    ok_ = False
+                    break
+        except Exception as e:
+            ctx.fail(case, f"split: update_parameter on {N} {g} items raises {type(e).__name__}: {str(e)[:160]}")
+            continue
+        if not bool(torch.isfinite(whole).all()):
+            ctx.fail(case, f"update: update_parameter on {N} {g} items gives non-finite entries")
+            continue
+        # the model on the sample (incl. the last item and the exact ties |phi| == eps)
+        idx = torch.tensor(sample)
+        fake = Env(); fake.layout = [("G", g, len(sample), gd, ad)]; fake.rg = [True]
+        Xb, Ds, got = X[idx], step[idx].reshape(-1), whole[idx]
+        ref, _ = indep_update(fake, [Xb], Ds)
+        tols = update_tolerances(fake, [Xb], ref, Ds, eps, FLOOR[dt_])[0].reshape(-1)
+        lines = [update_line(fake, [Xb], Ds, e_) for e_ in (eps * (1 - 2.0 ** -40), eps * (1 + 2.0 ** -40))]
+        box = {"best": None, "n": 0}
+
+        def cb(rep, got=got.double().reshape(-1), tols=tols, box=box, case=case, sample=sample, th=th, gd=gd):
+            st_, toks = common.parse_reply(rep)
+            box["n"] += 1
+            if st_ == "ok" and len(toks) == got.numel():
+                want = torch.tensor([fw(t_) for t_ in toks], dtype=torch.float64)
+                ratio = (got - want).abs() / (tols + 1e-300)
+                r_ = float(ratio.max())
+                if box["best"] is None or r_ < box["best"][0]:
+                    box["best"] = (r_, int(ratio.argmax()), float((got - want).abs().max()))
+            if box["n"] == 2:
+                if box["best"] is None or box["best"][0] > 1:
+                    j_ = box["best"][1] // gd if box["best"] else -1
+                    ctx.disagree("update", case, f"large update ({case['group']}, N={case['N']}): item {sample[j_] if j_ >= 0 else '?'} differs from the model "
+                                                 f"(ratio {box['best'][0] if box['best'] else float('inf'):.2e}, |phi| = {float(th[sample[j_]]) if j_ >= 0 else 0:.3e})")
+                    # the property's own statement on the real code: Exp(d[:m])·X at round-off level (float64 reference)
+                    ctx.fail(case, f"update: item {sample[j_] if j_ >= 0 else '?'} of a {case['N']}-item {case['group']} parameter is not Exp(d[:m])·X to round-off "
+                                   f"(error {box['best'][2] if box['best'] else float('nan'):.3e}, |phi| = {float(th[sample[j_]]) if j_ >= 0 else 0:.3e})")
+        for ln in lines:
+            pending.append((ln, cb))
+        # and against the library-independent float64 reference on EVERY item (single-step accuracy, class 24)
+        fake_all = Env(); fake_all.layout = [("G", g, N, gd, ad)]; fake_all.rg = [True]
+        ref_all, _ = indep_update(fake_all, [X], step.reshape(-1))
+        tol_all = update_tolerances(fake_all, [X], ref_all, step.reshape(-1), eps, FLOOR[dt_])[0]
+        err = (whole.double() - ref_all[0].double()).abs()
+        if bool((err > 4 * tol_all).any()):
+            j_ = int((err / (4 * tol_all + 1e-300)).amax(1).argmax())
+            ctx.fail(case, f"update: item {j_} of a {N}-item {g} parameter is not Exp(d[:m])·X of the float64 reference to round-off "
+                           f"(error {float(err[j_].max()):.3e}, |phi| = {float(th[j_]):.3e})")
+        ctx.note_case(("large-update", g, N, dt_), True)
+        ctx.count(f"large.update.{g}.N{N}")
+    flush(ctx, pending)
+
+
+def run_ctor_checks(ctx: Ctx):
+    """(26) sign conventions that are documented validity checks: non-positive clamps / damping / radius are rejected"""
+    P = pp()
+    import pypose.optim.strategy as S
+    mdl = nn.Linear(2, 1)
+    probes = [("LM(min=0)", lambda: P.optim.LM(mdl, min=0.0)), ("LM(min=-1e-6)", lambda: P.optim.LM(mdl, min=-1e-6)),
+              ("LM(max=0)", lambda: P.optim.LM(mdl, max=0.0)), ("LM(max=-1)", lambda: P.optim.LM(mdl, max=-1.0)),
+              ("Constant(damping=0)", lambda: S.Constant(damping=0.0)), ("Constant(damping=-1)", lambda: S.Constant(damping=-1.0)),
+              ("Adaptive(damping=-1e-6)", lambda: S.Adaptive(damping=-1e-6)), ("TrustRegion(radius=0)", lambda: S.TrustRegion(radius=0.0)),
+              ("TrustRegion(radius=-2)", lambda: S.TrustRegion(radius=-2.0))]
+    for name, f in probes:
+        try:
+            f()
+            ctx.fail({"kind": "ctor", "probe": name}, f"ctor-reject: {name} is accepted although the documented check requires a positive value")
+        except AssertionError:
+            ctx.count("ctor.rejected")
+        except Exception as e:
+            ctx.fail({"kind": "ctor", "probe": name}, f"ctor-reject: {name} raises {type(e).__name__} instead of the documented assertion")
+        ctx.note_case(("ctor", name), True)
+
+
 # ----------------------------------------------------------------------------- deterministic corner corpus
 
 def corner_cases():
@@ -2038,12 +2559,12 @@ def corner_cases():
         out.append(make_case(rng, opt=opt, bshape=[3], ptypes=[["G", "SE3"]], nres=2, wmode="both", dtype="float64", ncalls=2, kmode="list"))
     # LM: multi-trial damping with a changing damping, clamp regimes
     for (lo, hi) in [(1e-6, 1e32), (50.0, 1e32), (1e-6, 1e-3), (1.0, 0.5), (1e-9, 10.0)]:
-        for strat in ("Adaptive", "TrustRegion", "Constant"):
+        for strat in (("Adaptive", "TrustRegion") if lo != 1e-9 else ("Constant", "Adaptive")):
             out.append(make_case(rng, opt="LM", strategy=strat, min=lo, max=hi, nbad=3, reject=5, ncalls=2, dtype="float64",
                                  damping=rng.choice([1e-9, 1e-2, 1.0, 1e3]), solver=rng.choice(["PINV", "LSTSQ", "Cholesky"])))
     # all group kinds, incl. scale steps, tiny and zero steps
     for g in U.GROUPS:
-        for tscale in (0.0, 1e-12, 1e-6, 1.0):
+        for tscale in ((0.0, 1e-6) if g in ("SO3", "RxSO3") else (1e-12, 1.0)):
             out.append(make_case(rng, opt=rng.choice(["GN", "LM"]), ptypes=[["G", g], rng.choice([["A", g], ["E", 3], ["S"]])],
                                  tscale=tscale, target="near", dtype=rng.choice(["float64", "float32"]), nbad=0))
     # two residuals, two correctors
@@ -2187,18 +2708,21 @@ def run_cases(ctx: Ctx, cases, pending):
 
 
 def run(ctx: Ctx):
-    torch.set_num_threads(2)
+    torch.set_num_threads(1)        # every operation here is tiny: threads only add contention on a shared box
     rng = ctx.rng
     pending = []
     run_wdiag(ctx, pending, wdiag_configs(rng, ctx.quick))
     flush(ctx, pending)
+    run_ctor_checks(ctx)
+    run_large_update(ctx, pending)
+    run_large(ctx, pending)
     run_cases(ctx, corner_cases(), pending)
     flush(ctx, pending)
     for c in (itemwise_cases(random.Random(7_0708), 10) + itemwise_cases(random.Random(7_0709), 0, kernels=True)
-              + itemwise_cases(rng, ctx.pick(16, 300))):
+              + itemwise_cases(rng, ctx.pick(10, 300))):
         check_itemwise(ctx, c)
         ctx.note_case(("itemwise",) + case_signature(c), True)
-    n = ctx.pick(60, 1400)
+    n = ctx.pick(35, 1400)
     run_cases(ctx, [make_case(rng) for _ in range(n)], pending)
     flush(ctx, pending)
 
